@@ -172,6 +172,56 @@ class Job:
         self.scratch = None
 
 
+_GUARD_ROOTS = []
+
+
+def guard_path(path):
+    """The checks run as root, the programs under test are written for ordinary users: a run child refuses to remove,
+    rename over or replace anything outside its scratch area (EPERM, as an unprivileged process would get) - a changed
+    nbdime that writes "atomically" onto an output path like /dev/null must not damage the machine."""
+    if not _GUARD_ROOTS:
+        return
+    try:
+        p = os.path.abspath(os.fspath(path))
+        if isinstance(p, bytes):
+            p = os.fsdecode(p)
+        d = os.path.join(os.path.realpath(os.path.dirname(p)), os.path.basename(p))
+    except (TypeError, ValueError):
+        return
+    for root in _GUARD_ROOTS:
+        if d == root or d.startswith(root + os.sep):
+            return
+    raise PermissionError(errno.EPERM, "Operation not permitted (outside the simulation's scratch area)", p)
+
+
+def install_outside_guard(roots):
+    """Wrap the destructive os-level calls of this (forked) process.  Seams installed later (SimFS) sit on top and
+    call guard_path themselves for paths they do not manage."""
+    _GUARD_ROOTS[:] = [os.path.realpath(r) for r in roots]
+
+    def wrap1(fn):
+        def guarded(path, *a, **kw):
+            if kw.get("dir_fd") is None:
+                guard_path(path)
+            return fn(path, *a, **kw)
+        guarded.__wrapped__ = fn
+        return guarded
+
+    def wrap2(fn):
+        def guarded(src, dst, *a, **kw):
+            if kw.get("src_dir_fd") is None and kw.get("dst_dir_fd") is None:
+                guard_path(src)
+                guard_path(dst)
+            return fn(src, dst, *a, **kw)
+        guarded.__wrapped__ = fn
+        return guarded
+    for name in ("remove", "unlink", "rmdir", "truncate"):
+        setattr(os, name, wrap1(getattr(os, name)))
+    for name in ("rename", "replace"):
+        setattr(os, name, wrap2(getattr(os, name)))
+    shutil.rmtree = wrap1(shutil.rmtree)
+
+
 def _child_main(job, wfd):
     # new session so a timeout can kill helper processes (git ...) too
     try:
@@ -192,6 +242,8 @@ def _child_main(job, wfd):
         os.close(dn)
     faulthandler.enable()
     faulthandler.dump_traceback_later(max(5, job.timeout - 2), exit=False)
+    if not _GUARD_ROOTS:
+        install_outside_guard([scratch_root(), job.scratch])
     try:
         try:
             res = job.fn(*job.args, scratch=job.scratch)
